@@ -4,6 +4,8 @@
 package netflow9
 
 //@ globalinv shardNo == 32
+// the template map of a shard may only be touched under the shard's RWMutex (C10)
+//@ guarded TemplatesShard.Templates
 //@ globalinv errUknownMarshalDataType != nil
 
 //@ pred nonfatal9(e error) = e != nil && typeid(e) == tyof(nonfatalError)
@@ -232,6 +234,7 @@ package netflow9
 
 // a cache that decoding can use without crashing, whatever file content it was loaded from (C11, C01)
 //@ func GetCache
+//@   opt nolock the cache being loaded or built is not shared before GetCache returns
 //@   opt replayprobe result.retrieve(300, net.IP{10, 0, 0, 1})
 //@   opt replayimports net
 //@   ensures wellFormed9(result)
@@ -240,6 +243,11 @@ package netflow9
 //@     decreases 32 - i
 
 //@ func (MemCache).valid
+//@   opt nolock called from GetCache on a cache that is not shared yet
 //@   ensures result ==> wellFormed9(m)
 //@   loop 1
 //@     invariant len(m) == 32 && (forall j :: m.off <= j && j < m.off + range_i ==> m.arr[j] != nil && !m.arr[j].Templates.isnil)
+
+// Dump marshals every shard by reflection: all shards must be read-locked across json.Marshal (C10, C15)
+//@ func (MemCache).Dump
+//@   requires wellFormed9(m)
